@@ -340,7 +340,7 @@ def explain_text(xout):
     return out
 
 
-def validate_all(work, module, spec, consts, tracefile, tag, max_viol=5):
+def validate_all(work, module, spec, consts, tracefile, tag, max_viol=5, story=None, explain=None):
     """validates a concatenated trace; on rejection isolates the failing
     scenario, explains it, removes it and continues.  Returns
     (n_accepted_scenarios, n_events, failures[list of dict])"""
@@ -381,7 +381,7 @@ def validate_all(work, module, spec, consts, tracefile, tag, max_viol=5):
                 fh.write(json.dumps(e) + "\n")
         _, _, xout, _ = validate(work, module, spec, consts, fe, "%s-x%d" % (tag, rounds), explain=True)
         failures.append({"scn": bad, "step": step, "event": groups[bad][step - 1] if step - 1 < len(groups[bad]) else None,
-                         "explain": explain_text(xout), "story": scenario_story(groups[bad], step)})
+                         "explain": (explain or explain_text)(xout), "story": (story or scenario_story)(groups[bad], step)})
         log("trace of scenario %s rejected at its line %d" % (bad, step))
         total_events += acc
         cur = cur[cur.index(bad) + 1:]   # earlier ones were accepted in this round
